@@ -4,6 +4,7 @@
 From Coq Require Import List Bool Arith.
 Import ListNotations.
 Require Import PonyV.Model.C18Session PonyV.Gen.C18Web PonyV.Proofs.C18Proofs.
+#[local] Open Scope list_scope.   (* also keeps the cone scanner's regex from backtracking over the next long identifier *)
 
 (* Decorated function called outside any session, for EVERY stream of attempt outcomes (poisoned?, finish | raise e), every
    retry count and every pair of predicates: with j = the last attempt executed,
